@@ -57,6 +57,10 @@ def _nodes() -> dict:
         "pg": {"content": "text*", "group": "block", "marks": "g0"},
         "box": {"content": "block+", "group": "block"},
         "boxa": {"content": "block+", "group": "block", "marks": "_"},
+        # block-content parents with an explicit, restricted marks expression (names / a group): node marks on blocks
+        "boxm": {"content": "block+", "group": "block", "marks": "m0 m2"},
+        "boxg": {"content": "block+", "group": "block", "marks": "g0"},
+        "leafm": {"group": "block", "marks": "m1"},
         "text": {},
     }
 
@@ -136,7 +140,7 @@ def group_maze_spec(R: Draw) -> dict:
         else:
             sp["excludes"] = " ".join(R.sample(used + names, R.int(1, 2)))
     nodes = _nodes()
-    for k in ("p02", "p1", "pg"):
+    for k in ("p02", "p1", "pg", "boxm", "boxg", "leafm"):
         nodes[k] = {**nodes[k], "marks": " ".join(R.sample(used + names, R.int(1, 2))) if used else "m0"}
     return {"nodes": nodes, "marks": marks}
 
